@@ -24,11 +24,12 @@ COMBOS = {
 TOK = {'R': 'tape_recorder_recordings/', 'F': 'full/', 'M': 'metadata/', '/': '/', 'X': 'unrelated/', 'D1': 'DAY'}
 
 
-def tla_consts(combo, max_saves, put_order='full-first', delete_whole=False, max_resaves=0, rejects=False):
+def tla_consts(combo, max_saves, put_order='full-first', delete_whole=False, max_resaves=0, rejects=False, slash_cat=False):
     cd = '(' + ' @@ '.join('"%s" :> [ro |-> %s, transient |-> %s, prefix |-> %s]'
                            % (c, 'TRUE' if ro else 'FALSE', 'TRUE' if tr else 'FALSE', mc.tla(tuple(p)))
                            for c, (ro, tr, p) in sorted(combo.items())) + ')'
-    return dict(Cass=set(combo), CassDef=Raw(cd), Cats=Raw('{<<"A">>, <<"A", "B">>}'), MaxSaves=max_saves,
+    return dict(Cass=set(combo), CassDef=Raw(cd), Cats=Raw('{<<"A">>, <<"A", "B">>, <<"/", "A">>}' if slash_cat else '{<<"A">>, <<"A", "B">>}'),
+                MaxSaves=max_saves,
                 MaxResaves=max_resaves, Rejects=rejects, PutOrder=put_order, DeleteWhole=delete_whole)
 
 
@@ -85,7 +86,7 @@ class Replayer(object):
             self._cur = (idx, st)
             try:
                 if k == 'savebegin':
-                    cat = ''.join(e['id'][:list(e['id']).index('/')])
+                    cat = ''.join(e['id'][:-4])      # id = category / day / unique part  (a category may itself begin with '/')
                     r = cas.create_new_recording(cat)
                     # the relative size of the two objects of a save varies: ordinary (data larger than metadata), or tiny
                     # data with large, highly compressible metadata (the stored full object is then the smaller one)
@@ -313,7 +314,7 @@ class Replayer(object):
                     continue  # completeness of discoverable recordings is claimed for saves only, not during clean-up
                 reader = make_s3_cassette(self.store, key_prefix=p, read_only=True)
                 n0 = len(self.store.mutations)
-                for cat in ('A', 'AB'):
+                for cat in ('A', 'AB', '/A'):
                     try:
                         ids = list(reader.iter_recording_ids(cat))
                     except Exception as ex:  # noqa
@@ -365,7 +366,8 @@ def run(rep, tier, seed):
     rep.assumptions = ['fake bucket fidelity (prefix listing in key order, delete of listed keys)',
                        'a key prefix literally named "full" or "metadata" is outside the universe']
     # (saves, re-saves of a stored recording, may the bucket refuse a put?)
-    variants = [(2, 0, True), (1, 1, True)] if tier == 'quick' else [(3, 0, False), (2, 1, True)]
+    # the (1, 1) variant also has a category that begins with a path separator ('/A')
+    variants = [(2, 0, True), (1, 1, True)] if tier == 'quick' else [(3, 0, False), (2, 1, True), (1, 1, True)]
     cap = 700 if tier == 'quick' else 100000
     rnd = random.Random(seed + 15)
     all_exh = True
@@ -381,7 +383,8 @@ def run(rep, tier, seed):
                 raise tlc.TLCError('the design variant %r should violate an invariant' % bad)
         for (max_saves, max_resaves, rejects), (name, combo) in [(v, c) for v in variants for c in sorted(COMBOS.items())]:
             mod = 'MC_C15_%s_%d%d' % (name, max_saves, max_resaves)
-            mc.write_mc(s, 'S3Bucket', mod, tla_consts(combo, max_saves, max_resaves=max_resaves, rejects=rejects), invariants=INVS)
+            mc.write_mc(s, 'S3Bucket', mod, tla_consts(combo, max_saves, max_resaves=max_resaves, rejects=rejects,
+                                                        slash_cat=(max_saves == 1)), invariants=INVS)
             r, g = tlc.dump_graph(s, mod, mod + '.cfg', max_states=900000)
             rep.add_tlc('%s (saves<=%d, re-saves<=%d, refused puts: %s)' % (name, max_saves, max_resaves, rejects), r, obligations=INVS)
             if r.violation:
